@@ -458,6 +458,21 @@ def judge(pid, seed, tier):
                         if rt[0] == "val" and rc[0] == "val" and rc[1] < rt[1] - 1e-9:
                             add("ElementaryScore.__call__", dict(eta=eta, functional=f, level=a, y=ys, w=ws, functional_value=t, other_constant=c), [rt, rc],
                                 "average elementary score is minimised by the sample's functional (also when eta is an observation)")
+    # ---- glue: arrays of different length must be rejected, also when one of them has length 1 (no broadcasting)
+    if pid in ("C04", "C05", "C08", "C14", "C15"):
+        for ya, za in (([1.0], [1.0, 2.0, 3.0]), ([1.0, 2.0, 3.0], [2.0]), ([1.0, 2.0], [1.0, 2.0, 3.0])):
+            tried += 1
+            if pid == "C08":
+                r = real(lambda: identification_function(ya, za, functional="mean"))
+                nm = "identification_function"
+            elif pid == "C15":
+                r = real(lambda: ElementaryScore(1.5, "mean").score_per_obs(ya, za))
+                nm = "ElementaryScore.score_per_obs"
+            else:
+                r = real(lambda: SquaredError().score_per_obs(ya, za))
+                nm = "SquaredError.score_per_obs"
+            if r[0] != "V":
+                add(nm, dict(y=ya, z=za), r, "observation and prediction vectors of different length must raise ValueError")
     # ---- glue around the translated core (np.asarray / validate_2_arrays): mixed float precision and purity
     if pid in ("C04", "C05", "C08", "C14", "C15"):
         y32 = np.array([1.0000001, 2.5, -0.75, 3.0000002], dtype=np.float32)
